@@ -6,7 +6,7 @@ import subprocess
 from checks import lib
 
 PROPERTY = "C33"
-LEAN_MODULES = ["KafVerif.Props.C33"]
+LEAN_MODULES = ["KafVerif.Props.C33", "KafVerif.Props.C33Pages"]
 OBLIGATIONS = [
     "KafVerif.C33.checkpoint_covered",
     "KafVerif.C33.checkpoint_covered_growing",
@@ -28,6 +28,14 @@ OBLIGATIONS = [
     "KafVerif.C33.continue_loses_records",
     "KafVerif.C33.lfs_drop_loses_records",
     "KafVerif.C33.noop_drops_offset_zero",
+    "KafVerif.C33.paged_listing_pairs_across_pages",
+    "KafVerif.C33.paged_listing_independent_of_page_cuts",
+    "KafVerif.C33.per_page_pairing_sublisting",
+    "KafVerif.C33.paged_lister_is_complete_lister",
+    "KafVerif.C33.per_page_pairing_drops_split_segment",
+    "KafVerif.C33.download_ok_is_whole_object",
+    "KafVerif.C33.download_cut_is_error",
+    "KafVerif.C33.truncated_decode_loses_records",
 ]
 BUILDS = {
     "sql": ("sql", "./internal/processor", ["C33"], {"test": True}),
@@ -37,7 +45,8 @@ BUILDS = {
 TECHNIQUE = ("Lean 4 invariant proof over a model of the polling loop + Go/Lean differential correspondence through "
              "the real Processor.Run (virtual time via testing/synctest; skeleton on the real clock), fed by scripted listers "
              "and by the real iceberg/sql S3 and manifest listers over an in-process S3 endpoint with a per-request fault "
-             "oracle + direct monitors")
+             "oracle, ListObjectsV2 pagination (small pages and S3's 1000-key pages behind filler keys) and GetObject bodies cut "
+             "mid-transfer in front of the real sql s3Decoder + direct monitors")
 LEVEL_TEXT = ("proof: checkpoint_covered — for every listing (offset order per partition), both checkpoint stores and every "
               "history of polling cycles with arbitrary listing/claim/load/decode/LFS/sink/commit failures and lease "
               "losses, every record at or below its partition's checkpoint is in the sink (induction over the history on "
@@ -62,7 +71,15 @@ LEVEL_TEXT = ("proof: checkpoint_covered — for every listing (offset order per
               "and checkpoints after every tick, plus a monitor inside the fake CommitOffset; a fifth of the timelines run the real "
               "s3Lister (iceberg, sql) and manifestLister (sql; fresh, unsorted and stale manifest.json, fallback) over an "
               "in-process S3 endpoint whose ListObjectsV2 / manifest GetObject / per-segment footer probe fail once on demand, "
-              "and the listing each tick produced is diffed against the model's as well.")
+              "and the listing each tick produced is diffed against the model's as well. The endpoint answers ListObjectsV2 in "
+              "pages (1-7 keys per page, or S3's own 1000-key pages behind ~1000 filler keys, so that a page boundary falls "
+              "between the .index and the .kfs key of a segment in the middle of a partition): paged_listing_pairs_across_pages / "
+              "paged_listing_independent_of_page_cuts / paged_lister_is_complete_lister — the page walk pairs a segment exactly when "
+              "both keys were listed on whichever pages, so the paged lister IS the lister of the theorems above for every page "
+              "cut; per_page_pairing_drops_split_segment — witness for a lister that pairs per page. For sql a third of the "
+              "real-lister timelines also run the REAL s3Decoder inside the loop over real segment objects, with downloads cut "
+              "mid-body under a full Content-Length (download_ok_is_whole_object, download_cut_is_error; "
+              "truncated_decode_loses_records — a Decode that answers the leading batches with a nil error loses the rest).")
 LEVEL_NOTE = ("Liveness is a one-cycle lemma (no fairness argument about how often failure-free cycles occur). A worker "
               "processes only the partition it holds the lease for (the repo's tests pin this); delivery of other "
               "partitions needs other workers and is not claimed. Schema validation (iceberg, lenient mode drops invalid "
@@ -73,7 +90,8 @@ LEVEL_NOTE = ("Liveness is a one-cycle lemma (no fairness argument about how oft
               "metadata snapshot) and the sql cachedLister / time-index enrichment are not run (a cached or stale listing is "
               "covered by checkpoint_covered_stale_listing as a per-partition prefix); S3 faults are HTTP 403 answers (not "
               "retried by the SDK), a listed object that disappears before its probe (NoSuchKey, skipped by design) is not "
-              "generated; ListObjectsV2 pagination is one page.")
+              "generated. The real s3Decoder runs in the loop for sql only (iceberg: scripted decoder; its S3 fetch is covered "
+              "by C07's chunking fake); ListObjectsV2 page faults hit the first page request of the tick.")
 ASSUMPTIONS = [
     "bucket: one .kfs/.index pair per (topic, partition, base offset) key, a segment's records are in offset order and a segment with a larger base offset holds larger offsets (BucketWF) — the offset order of ListCompleted's answer is then a theorem (fullListing_sorted) and is checked on the real listers; between ticks the bucket only grows at the end of a partition, completed segments never disappear; a listing that is not the complete one is a per-partition prefix of it (stale manifest, cache)",
     "Decode returns the same records for the same segment on every successful call",
@@ -195,7 +213,19 @@ def gen_lister_case(rng, variant, ncycles):
         while pool:
             order.append(pool.pop(rng.range(0, len(pool) - 1)))
         segs = order
-    lines = ["case %s %s lister=%s" % (variant, store, lister)]
+    # round 3b: ListObjectsV2 answers in PAGES (page=<k> keys per page; small odd k puts a page boundary between the
+    # .index and the .kfs object of a segment in the middle of a partition; fill=<n> filler keys in front do the same with
+    # S3's own 1000-key pages), and (sql, lister=s3) decoder=real: the module's real s3Decoder downloads real segment
+    # objects inside the loop, s3 items c<i> / h<i> cut that tick's download of segment i mid-body
+    opts = ""
+    if rng.chance(1, 2):
+        opts += " page=%d" % rng.choice([1, 2, 3, 3, 3, 5, 5, 7, 4])
+    elif rng.chance(1, 12):
+        opts += " fill=%d" % (999 - 2 * rng.range(0, len(segs) - 1))
+    realdec = variant == "sql" and lister == "s3" and rng.chance(1, 2)
+    if realdec:
+        opts += " decoder=real"
+    lines = ["case %s %s lister=%s%s" % (variant, store, lister, opts)]
     for tp, offs in segs:
         lines.append("seg %d %s" % (tp, ",".join(map(str, offs))))
     grow = rng.chance(1, 3) or lister == "stale"
@@ -224,6 +254,15 @@ def gen_lister_case(rng, variant, ncycles):
                         if later:
                             i = rng.choice(later)
                     s3.append("p%d" % i)
+        if realdec and (c < 2 and rng.chance(1, 2) or rng.chance(1, 6)):
+            # a download cut mid-body, mostly of a segment that is not the newest of its partition
+            i = rng.range(0, len(segs) - 1)
+            newest = max((offs[0], j) for j, (tp, offs) in enumerate(segs) if tp == segs[i][0])[1]
+            if i == newest and rng.chance(3, 4):
+                older = [j for j, (tp, _) in enumerate(segs) if tp == segs[i][0] and j != newest]
+                if older:
+                    i = rng.choice(older)
+            s3.append("%s%d" % (rng.choice("ch"), i))
         claim = "-"
         if rng.chance(1, 8):
             claim = "".join("1" if rng.chance(1, 2) else "0" for _ in segs)
@@ -245,9 +284,30 @@ def s3_faults(cycle_line):
     return [x for x in f[4][3:].split("+") if x] if len(f) > 4 and f[4].startswith("s3=") else []
 
 
+def is_cut(x):
+    return len(x) > 1 and x[0] in "ch" and x[1:].isdigit()
+
+
+def model_cycle(cycle_line):
+    """The model's view of a cycle line of a decoder=real case: a download of segment i that is cut mid-body (s3 item
+    c<i> / h<i>) is a failed Decode of that segment in this tick (unless LoadOffset fails first)."""
+    f = cycle_line.split()
+    cuts = [int(x[1:]) for x in s3_faults(cycle_line) if is_cut(x)]
+    if not cuts:
+        return cycle_line
+    fs = f[3].split(",")
+    for i in cuts:
+        if i < len(fs) and fs[i][0] in "nsc":
+            fs[i] = "d"
+    rest = [x for x in s3_faults(cycle_line) if not is_cut(x)]
+    return " ".join(f[:3] + [",".join(fs)] + (["s3=" + "+".join(rest)] if rest else []))
+
+
 def listing_clean(case_line, cycle_line):
-    """Does this tick's ListCompleted have to succeed with the complete listing?"""
+    """Does this tick's ListCompleted have to succeed with the complete listing (and every download)?"""
     s3 = s3_faults(cycle_line)
+    if any(is_cut(x) for x in s3):
+        return False
     if "lister=stale" in case_line.split() and "m" not in s3:
         return False        # an old manifest is read: only the segments it names have to be delivered
     if "lister=manifest" in case_line.split() and "m" not in s3:
@@ -329,7 +389,7 @@ def split_cases(lines):
 
 def lean_input(case_lines, impl_lines):
     """The model's op list: the scenario with `lost` where the implementation observed it."""
-    it = iter([l for l in case_lines if l != "lost"])
+    it = iter([model_cycle(l) if l.startswith("cycle ") else l for l in case_lines if l != "lost"])
     out = []
     for o in impl_lines:
         if o == "lost":
@@ -382,6 +442,9 @@ def compare(ck, name, cases, results, rerun=None):
             ck.count("%s_real_lister_cases" % name)
             ck.count("s3_faults_injected", sum(len(s3_faults(l)) for l in c if l.startswith("cycle")))
             ck.count("footer_probe_faults", sum(1 for l in c if l.startswith("cycle") for x in s3_faults(l) if x.startswith("p")))
+            ck.count("paged_listing_cases", 1 if (" page=" in c[0] or " fill=" in c[0]) else 0)
+            ck.count("real_decoder_cases", 1 if "decoder=real" in c[0] else 0)
+            ck.count("downloads_cut_mid_body", sum(1 for l in c if l.startswith("cycle") for x in s3_faults(l) if is_cut(x)))
             ck.count("listings_failed", sum(1 for l in r if l.endswith("listed=err")))
             ck.count("listings_answered", sum(1 for l in r if " listed=" in l and not l.endswith("listed=err")))
         ck.count("lease_losses", sum(1 for l in r if l == "lost"))
@@ -459,7 +522,29 @@ def corpus(variant):
                     "cycle 0 - n,n,n,n s3=L", "cycle 0 - n,n,n,d", "cycle 0 - n,n,n,n s3=p0", "cycle 0 - n,n,n,n"])
         out.append(["case %s noop lister=s3" % variant, "seg 2 7", "seg 2 8,9", "seg 2 10", "cycle 0 - n,n,n s3=p2",
                     "cycle 0 - n,n,n s3=p1", "seg 2 11", "cycle 0 - n,n,n,n s3=p3", "cycle 0 - n,n,n,n"])
+        # ListObjectsV2 in pages: a page boundary between the .index and the .kfs object of the MIDDLE segment (3-key
+        # pages; S3's own 1000-key pages behind 997 filler keys), of every segment (1-key pages), two partitions with a
+        # shuffled bucket, a failing probe on a later page, a segment completing between ticks
+        three = ["seg 0 0,1", "seg 0 2,3", "seg 0 4,5", "cycle 0 - n,n,n", "cycle 0 - n,n,n"]
+        out.append(["case %s mem lister=s3 page=3" % variant] + three)
+        out.append(["case %s mem lister=s3 fill=997" % variant] + three)
+        out.append(["case %s mem lister=s3 page=1" % variant] + three)
+        out.append(["case %s mem lister=s3 fill=995" % variant, "seg 0 0", "seg 0 1", "seg 0 2,3", "seg 0 4", "cycle 0 - n,n,n,n",
+                    "seg 0 5", "cycle 0 - n,n,n,n,n", "cycle 0 - n,n,n,n,n"])
+        out.append(["case %s mem lister=s3 page=5" % variant, "seg 1 2,3", "seg 0 4,5", "seg 1 0,1", "seg 0 0,1", "seg 0 2,3", "seg 1 4",
+                    "cycle 0 - n,n,n,n,n,n s3=p4", "cycle 0 - n,n,n,n,n,n", "lost", "cycle 0 - n,n,n,n,n,n", "cycle 0 - n,n,n,n,n,n"])
+        out.append(["case %s noop lister=s3 page=7" % variant, "seg 2 7", "seg 2 8,9", "seg 2 10", "seg 2 11", "cycle 0 - n,n,n,n",
+                    "seg 2 12", "cycle 0 - n,n,n,n,n s3=L", "cycle 0 - n,n,n,n,n"])
     if variant == "sql":
+        # the REAL s3Decoder inside the loop: the download of a segment that is not the newest is cut mid-body
+        # (Content-Length announces the whole object): the tick must stop at that segment, never commit the next one
+        for cut in ("c1", "h1", "c0", "h0+c1"):
+            out.append(["case sql mem lister=s3 decoder=real", "seg 0 0,1", "seg 0 2,3,4", "seg 0 5,6", "cycle 0 - n,n,n s3=" + cut,
+                        "cycle 0 - n,n,n", "cycle 0 - n,n,n"])
+        out.append(["case sql mem lister=s3 decoder=real page=3", "seg 0 4", "seg 0 0,1,2,3", "seg 1 0", "seg 0 5", "cycle 0 - n,n,n,n s3=h1",
+                    "cycle 0 - n,n,n,s s3=c0", "cycle 0 - n,n,n,n"])
+        out.append(["case sql noop lister=s3 decoder=real", "seg 0 0", "seg 0 1", "cycle 0 - n,n", "seg 0 2", "cycle 0 - n,n,n s3=c1+p0",
+                    "cycle 0 - n,l,n s3=h1", "cycle 0 - n,n,n"])
         # manifest.json names the segments out of offset order (pre-fix: handed out as is); the manifest cannot be
         # read and the fallback S3 lister meets a failing probe / a failing ListObjectsV2
         out.append(["case sql mem lister=manifest", "seg 0 2,3", "seg 0 0,1", "seg 0 4,5", "cycle 0 - n,n,n", "cycle 0 - n,n,n"])
@@ -513,7 +598,9 @@ def run(ck):
                       "claim/list failures and lease losses, generated from VERIF_SEED; a further 60 (quick) timelines per "
                       "processor take the listing from the real S3 / manifest lister over an in-process S3 endpoint (bucket = the "
                       "seg lines, shuffled in half of the cases; per tick a set of S3 requests that fail once: ListObjectsV2, "
-                      "manifest GetObject, footer probe of segment i, mostly a segment in the middle of a partition); non-trivial when at least one "
+                      "manifest GetObject, footer probe of segment i, mostly a segment in the middle of a partition; half of them list in pages of 1-7 keys, "
+                      "some behind 990-999 filler keys with 1000-key pages; sql lister=s3: half run the real s3Decoder over real segment objects with "
+                      "downloads of mostly non-newest segments cut mid-body); non-trivial when at least one "
                       "failure was injected and the checkpoint moved; distinct = distinct scenario texts")
     # skeleton: real clock, all cases concurrently, few ticks — start it first, collect it last
     nsk = 40 if quick else 200
